@@ -14,8 +14,10 @@ import (
 	"time"
 
 	"google.golang.org/genproto/googleapis/rpc/errdetails"
+	spb "google.golang.org/genproto/googleapis/rpc/status"
 	"google.golang.org/grpc/codes"
 	"google.golang.org/grpc/status"
+	"google.golang.org/protobuf/types/known/anypb"
 	"google.golang.org/protobuf/types/known/durationpb"
 
 	"go.opentelemetry.io/collector/component"
@@ -101,7 +103,10 @@ type c15Cfg struct {
 	Outcome string `json:"consumer_outcome"`
 	// Msg: what the consumer's error message looks like (ascii, utf8, invalid-utf8, long, empty); it must not change
 	// what the failure means to the sender
-	Msg     string `json:"consumer_error_message,omitempty"`
+	Msg string `json:"consumer_error_message,omitempty"`
+	// Details: what else the consumer's status carries besides an optional RetryInfo - details of other types (a type
+	// linked into the binary, a type that is not: statuses relayed from other systems), before and/or after it
+	Details string `json:"other_status_details,omitempty"`
 	RetryMs int    `json:"retry_info_ms"` // -1 = no RetryInfo
 	Auth    bool   `json:"server_authenticator"`
 	Creds   bool   `json:"client_sends_credentials"`
@@ -243,6 +248,26 @@ func runC15(r *simkit.Run) {
 				panic(err)
 			}
 			st = st2
+		}
+		if tp.Chance(1, 3) {
+			// other details around the RetryInfo (or without one): they must not change what the status means
+			known, _ := anypb.New(&errdetails.ErrorInfo{Reason: "SIM", Domain: "sim.example"})
+			foreign := &anypb.Any{TypeUrl: "type.googleapis.com/acme.quota.v1.QuotaViolation", Value: []byte{0x0a, 0x03, 'a', 'b', 'c'}}
+			kinds := map[string]*anypb.Any{"known": known, "foreign": foreign}
+			pr := st.Proto()
+			var before, after []*anypb.Any
+			for _, k := range []string{"known", "foreign"} {
+				switch tp.Draw(3) {
+				case 1:
+					before = append(before, kinds[k])
+					cfg.Details += k + "-before "
+				case 2:
+					after = append(after, kinds[k])
+					cfg.Details += k + "-after "
+				}
+			}
+			pr = &spb.Status{Code: pr.GetCode(), Message: pr.GetMessage(), Details: append(append(before, pr.GetDetails()...), after...)}
+			st = status.FromProto(pr)
 		}
 		cfg.Outcome = "status:" + code.String()
 		outcome = st.Err()
@@ -825,5 +850,5 @@ var HarnessC15 = simkit.Harness{
 	Prop: "C15", Name: "svc/c15", Run: runC15, NoBubble: true, StepTimeout: 60e9, RateLimit: 40,
 	Real: []string{"otlpreceiver (gRPC and HTTP servers, created by its factory)", "otlpexporter (gRPC) and otlphttpexporter (protobuf and JSON), created by their factories on top of exporterhelper", "configgrpc / confighttp / configauth middleware incl. server-side authentication and every supported compression", "pdata request wrappers and codecs", "kernel loopback TCP"},
 	Stub: []string{"consumer behind the receiver (accepts / permanent / transient / gRPC status of each code with or without RetryInfo)", "server authenticator extension (expects a bearer token)", "raw HTTP client for malformed requests"},
-	Rule: "one run = one request through one hop: tape-drawn signal, generated payload (or an empty one), transport (gRPC, HTTP/protobuf, HTTP/JSON), compression, consumer outcome (accept, permanent, transient, gRPC status of each of 16 codes with/without RetryInfo of 0/0.5/2/61 s), server authenticator on/off with/without client credentials; or a raw malformed HTTP request (bad body, wrong content type, wrong method, missing credentials, empty payload); retries and queues are off, one request at a time - or (1 hop run in 6) 2-6 requests with different payloads at the same time through the one exporter, held by the consumer until all have arrived, the even ones accepted and the odd ones refused, each payload must arrive once and unchanged and each sender must see its own outcome; runs outside the synctest bubble on real loopback sockets; the OTLP specification's gRPC and HTTP status tables are written out in the oracle; distinct = distinct event-log hash; non-trivial = a refusing consumer, compression or a malformed request",
+	Rule: "one run = one request through one hop: tape-drawn signal, generated payload (or an empty one), transport (gRPC, HTTP/protobuf, HTTP/JSON), compression, consumer outcome (accept, permanent, transient, gRPC status of each of 16 codes with/without RetryInfo of 0/0.5/2/61 s, 1 in 3 with details of other types - one linked into the binary, one not - before and/or after it), server authenticator on/off with/without client credentials; or a raw malformed HTTP request (bad body, wrong content type, wrong method, missing credentials, empty payload); retries and queues are off, one request at a time - or (1 hop run in 6) 2-6 requests with different payloads at the same time through the one exporter, held by the consumer until all have arrived, the even ones accepted and the odd ones refused, each payload must arrive once and unchanged and each sender must see its own outcome; runs outside the synctest bubble on real loopback sockets; the OTLP specification's gRPC and HTTP status tables are written out in the oracle; distinct = distinct event-log hash; non-trivial = a refusing consumer, compression or a malformed request",
 }
